@@ -129,6 +129,10 @@ func DecryptMessage(ctx context.Context, ct []byte, keySource X25519KeyProducer,
 	return nil
 }
 
+// aeadIvSize is the size of the IV that the aead wrapper prepends to the
+// ciphertext
+const aeadIvSize = 12
+
 func decryptWithKey(ctx context.Context, keyId string, ct []byte, sharedKey []byte, result proto.Message) error {
 	const op = "nodeenrollment.decryptWithKey"
 
@@ -144,6 +148,12 @@ func decryptWithKey(ctx context.Context, keyId string, ct []byte, sharedKey []by
 	blobInfo := new(wrapping.BlobInfo)
 	if err := proto.Unmarshal(ct, blobInfo); err != nil {
 		return fmt.Errorf("(%s) error unmarshaling incoming blob info: %w", op, err)
+	}
+
+	// The aead wrapper slices the IV off the front of the ciphertext without
+	// checking its length, so reject anything too short to contain one
+	if len(blobInfo.Ciphertext) < aeadIvSize {
+		return fmt.Errorf("(%s) incoming blob info ciphertext is too short", op)
 	}
 
 	var aadOpt wrapping.Option
